@@ -20,6 +20,7 @@ package discov
 import (
 	"errors"
 	"fmt"
+	"os"
 	"sort"
 	"strings"
 	"sync/atomic"
@@ -30,7 +31,10 @@ import (
 	"pgregory.net/rapid"
 )
 
-var c13CaseNo int64
+var (
+	c13CaseNo int64
+	c13Debug  = os.Getenv("VERIF_C13_DEBUG") != "" // print every event as it starts (to see where a run hangs)
+)
 
 type pipeSub struct {
 	name    string
@@ -39,18 +43,13 @@ type pipeSub struct {
 	viewChecker
 }
 
-type pipePub struct {
-	pub *Publisher
-	key string
-}
-
 type pipeHarness struct {
 	etcd  *VerifEtcd
 	base  string            // the subscribed key of this case (unique)
 	names map[string]string // symbolic key name -> real key
 	syms  []string
-	subs  []*pipeSub // open subscribers
-	pubs  []*pipePub // running publishers
+	subs  []*pipeSub   // open subscribers
+	pubs  []*Publisher // running publishers
 	// per range: what etcd has handed to the watcher so far, and up to which revision
 	told    map[string]map[string]string
 	applied map[string]int64
@@ -79,9 +78,9 @@ func newPipeHarness() *pipeHarness {
 	for _, k := range c13Keys {
 		add("B/"+k, h.base+"/"+k)
 	}
-	add("B", h.base)                      // the exact key: outside the prefix range
-	add("Bx/k0", h.base+"x/k0")           // shares the text of the prefix, not the delimiter
-	add("B/k0/sub", h.base+"/k0/sub")     // nested under the prefix
+	add("B", h.base)                  // the exact key: outside the prefix range
+	add("Bx/k0", h.base+"x/k0")       // shares the text of the prefix, not the delimiter
+	add("B/k0/sub", h.base+"/k0/sub") // nested under the prefix
 	add("other/k0", fmt.Sprintf("c13other%d/k0", n))
 	return h
 }
@@ -114,10 +113,15 @@ func (h *pipeHarness) subsOn(rangeID string) []*pipeSub {
 	return out
 }
 
-// step runs one event and checks every open subscriber afterwards.
-func (h *pipeHarness) step(apply func() error) (string, error) {
-	befores := make([]viewBefore, len(h.subs))
+// step runs one event and checks every open subscriber afterwards.  The returned string
+// is an oracle complaint ("" = fine), the error a harness problem (watchdog = inconclusive).
+func (h *pipeHarness) step(what string, apply func() error) (string, error) {
+	fmt.Fprintf(&h.log, " %s", what)
+	if c13Debug {
+		fmt.Fprintf(os.Stderr, "c13 case %s: %s\n", h.base, what)
+	}
 	subs := append([]*pipeSub(nil), h.subs...)
+	befores := make([]viewBefore, len(subs))
 	for i, s := range subs {
 		befores[i] = s.before()
 	}
@@ -129,26 +133,31 @@ func (h *pipeHarness) step(apply func() error) (string, error) {
 			return fmt.Sprintf("subscriber %s: %s", s.name, msg), nil
 		}
 	}
-	// subscribers opened by this very event
+	// a subscriber opened by this very event
 	first := len(subs)
 	if first > len(h.subs) {
 		first = len(h.subs)
 	}
 	for _, s := range h.subs[first:] {
-		if msg := s.m.verdict(s.values()); msg != "" {
-			return fmt.Sprintf("new subscriber %s: %s: Values()=%v, registry %s", s.name, msg, sortedCopy(s.values()), s.m), nil
+		if msg := s.after(s.before()); msg != "" {
+			return fmt.Sprintf("new subscriber %s: %s", s.name, msg), nil
 		}
-		s.m.settle(setOf(s.values()))
 	}
 	return "", nil
 }
 
 // deliver advances the models of range r by the events etcd handed out.
+//
+// Events replayed after a stream break are applied like any others.  A subscriber cannot
+// tell a replayed registration from a new one, so for the exclusive clause ("the most
+// recently registered key of each value") the order that counts is the order in which
+// the subscriber is told.  For a subscriber that has seen the log before, replaying it
+// changes nothing in the model (each key ends with its last event, each value with its
+// last registrant); for one that joined the watcher later it is genuinely new knowledge.
 func (h *pipeHarness) deliver(r string, evs []VerifEvent) {
 	for _, ev := range evs {
 		if ev.Rev <= h.applied[r] {
 			h.replays++
-			continue // a replayed event: the subscriber has been told already
 		}
 		told := h.told[r]
 		if ev.Delete {
@@ -172,76 +181,197 @@ func (h *pipeHarness) deliver(r string, evs []VerifEvent) {
 	}
 }
 
-// reloaded: the watcher of range r has loaded the range anew.
-func (h *pipeHarness) reloaded(r string) {
-	snap := h.etcd.InRange(r)
-	for k, v := range snap {
-		if old, ok := h.told[r][k]; ok && old != v {
-			h.inPlace++
+// reloaded: the watchers of the ranges rs have loaded their range anew.
+func (h *pipeHarness) reloaded(rs []string) {
+	for _, r := range rs {
+		if _, ok := h.told[r]; !ok {
+			continue
 		}
-	}
-	h.told[r] = snap
-	h.applied[r] = h.etcd.Rev()
-	h.reloads++
-	for _, s := range h.subsOn(r) {
-		applyReloadToModel(s.m, snap)
+		snap := h.etcd.InRange(r)
+		for k, v := range snap {
+			if old, ok := h.told[r][k]; ok && old != v {
+				h.inPlace++
+			}
+		}
+		h.told[r] = snap
+		h.applied[r] = h.etcd.Rev()
+		h.reloads++
+		for _, s := range h.subsOn(r) {
+			applyReloadToModel(s.m, snap)
+		}
 	}
 }
 
-func (h *pipeHarness) subscribe(exact, excl bool, nListeners int) error {
-	key := h.base
-	r := VerifRangeID(key, exact)
-	shared := len(h.subsOn(r)) > 0
-	var opts []SubOption
-	if exact {
-		opts = append(opts, WithExactMatch())
-	}
-	if excl {
-		opts = append(opts, Exclusive())
-	}
-	before := h.etcd.WatchCount(r)
-	sub, err := NewSubscriber(h.etcd.Endpoints(), key, opts...)
-	if err != nil {
-		return fmt.Errorf("NewSubscriber: %w", err)
-	}
-	h.nsub++
-	s := &pipeSub{name: fmt.Sprintf("s%d(exact=%v,excl=%v)", h.nsub, exact, excl), sub: sub, rangeID: r}
-	s.viewChecker = viewChecker{m: newRegModel(excl), values: sub.Values}
-	if shared {
-		// joins a running watcher: it is told what the watcher has been told so far
-		applyReloadToModel(s.m, h.told[r])
-	} else {
-		snap := h.etcd.InRange(r)
-		h.told[r] = snap
-		h.applied[r] = h.etcd.Rev()
-		applyReloadToModel(s.m, snap)
-		if err := h.etcd.WaitWatchCount(r, before+1); err != nil {
+func (h *pipeHarness) opPut(sym, v string) (string, error) {
+	return h.step(fmt.Sprintf("put(%s=%s)", sym, v), func() error { h.etcd.Put(h.names[sym], v); return nil })
+}
+
+func (h *pipeHarness) opDel(sym string) (string, error) {
+	return h.step(fmt.Sprintf("del(%s)", sym), func() error { h.etcd.Delete(h.names[sym]); return nil })
+}
+
+func (h *pipeHarness) opSync(chunk int) (string, error) {
+	return h.step(fmt.Sprintf("sync(%d)", chunk), func() error {
+		got, err := h.etcd.Sync(chunk)
+		for _, r := range sortedRangeIDs(got) {
+			h.deliver(r, got[r])
+		}
+		return err
+	})
+}
+
+func (h *pipeHarness) opCompact(all bool) (string, error) {
+	return h.step(fmt.Sprintf("compact(all=%v)", all), func() error {
+		rs, err := h.etcd.Compact(all)
+		h.reloaded(rs)
+		return err
+	})
+}
+
+func (h *pipeHarness) opBreak(closeChan bool) (string, error) {
+	return h.step(fmt.Sprintf("break(close=%v)", closeChan), func() error {
+		rs, err := h.etcd.Break(closeChan)
+		h.reloaded(rs)
+		return err
+	})
+}
+
+func (h *pipeHarness) opReconnect() (string, error) {
+	return h.step("reconnect", func() error {
+		rs, err := h.etcd.Reconnect()
+		h.reloaded(rs)
+		return err
+	})
+}
+
+func (h *pipeHarness) opSubscribe(exact, excl bool, nListeners int) (string, error) {
+	return h.step(fmt.Sprintf("subscribe(exact=%v,excl=%v,listeners=%d)", exact, excl, nListeners), func() error {
+		key := h.base
+		r := VerifRangeID(key, exact)
+		shared := len(h.subsOn(r)) > 0
+		var opts []SubOption
+		if exact {
+			opts = append(opts, WithExactMatch())
+		}
+		if excl {
+			opts = append(opts, Exclusive())
+		}
+		before := h.etcd.WatchCount(r)
+		sub, err := NewSubscriber(h.etcd.Endpoints(), key, opts...)
+		if err != nil {
+			return fmt.Errorf("NewSubscriber: %w", err)
+		}
+		h.nsub++
+		s := &pipeSub{name: fmt.Sprintf("s%d(exact=%v,excl=%v)", h.nsub, exact, excl), sub: sub, rangeID: r}
+		s.viewChecker = viewChecker{m: newRegModel(excl), values: sub.Values}
+		s.m.show = h.sym
+		if shared {
+			// joins a running watcher: it is told what the watcher has been told so far
+			applyReloadToModel(s.m, h.told[r])
+		} else {
+			snap := h.etcd.InRange(r)
+			h.told[r] = snap
+			h.applied[r] = h.etcd.Rev()
+			applyReloadToModel(s.m, snap)
+			if err := h.etcd.WaitWatchCount(r, before+1); err != nil {
+				return err
+			}
+		}
+		for i := 0; i < nListeners; i++ {
+			sub.AddListener(s.newListener())
+		}
+		h.subs = append(h.subs, s)
+		return nil
+	})
+}
+
+// closeSub closes subscriber i.  When it is the last one on its range the stream is
+// first renewed (Quiesce): closing cancels the watch, and a watch goroutine that is still
+// busy with the barrier of the last Sync would otherwise be in flight when a later
+// reconnect reload takes the cluster lock and waits for it (a schedule, not a history).
+func (h *pipeHarness) closeSub(i int) error {
+	s := h.subs[i]
+	if len(h.subsOn(s.rangeID)) == 1 {
+		if err := h.etcd.Quiesce(s.rangeID); err != nil {
 			return err
 		}
 	}
-	for i := 0; i < nListeners; i++ {
-		sub.AddListener(s.newListener())
-	}
-	h.subs = append(h.subs, s)
-	return nil
-}
-
-func (h *pipeHarness) closeSub(i int) {
-	s := h.subs[i]
 	s.sub.Close()
 	h.subs = append(h.subs[:i], h.subs[i+1:]...)
 	if len(h.subsOn(s.rangeID)) == 0 {
 		delete(h.told, s.rangeID)
 		delete(h.applied, s.rangeID)
 	}
+	return nil
+}
+
+func (h *pipeHarness) opClose(i int) (string, error) {
+	return h.step("close("+h.subs[i].name+")", func() error { return h.closeSub(i) })
+}
+
+func (h *pipeHarness) opListen(i int) (string, error) {
+	s := h.subs[i]
+	return h.step("listen("+s.name+")", func() error { s.sub.AddListener(s.newListener()); return nil })
+}
+
+// opPublish starts a Publisher on the subscribed key (id 0: the etcd key is named after
+// the lease; otherwise <key>/<id>, so a second publisher with the same id updates the key
+// in place).
+func (h *pipeHarness) opPublish(id int64, v string) (string, error) {
+	return h.step(fmt.Sprintf("publish(id=%d,%s)", id, v), func() error {
+		var opts []PubOption
+		if id > 0 {
+			opts = append(opts, WithId(id))
+		}
+		_, putsBefore, _ := h.etcd.Counters()
+		p := NewPublisher(h.etcd.Endpoints(), h.base, v, opts...)
+		if err := p.KeepAlive(); err != nil {
+			return fmt.Errorf("KeepAlive: %w", err)
+		}
+		if _, puts, _ := h.etcd.Counters(); puts != putsBefore+1 {
+			return fmt.Errorf("KeepAlive returned but etcd saw %d puts", puts-putsBefore)
+		}
+		h.pubs = append(h.pubs, p)
+		return nil
+	})
+}
+
+func (h *pipeHarness) opUnpublish(i int) (string, error) {
+	return h.step(fmt.Sprintf("unpublish(%d)", i), func() error {
+		h.pubs[i].Stop()
+		h.pubs = append(h.pubs[:i], h.pubs[i+1:]...)
+		h.revoked++
+		return h.etcd.WaitRevokes(h.revoked)
+	})
+}
+
+// converged: everything is delivered, so a non-exclusive subscriber must show exactly
+// the values etcd holds in its range.
+func (h *pipeHarness) converged() string {
+	for _, s := range h.subs {
+		if s.m.excl {
+			continue
+		}
+		want := map[string]bool{}
+		for _, v := range h.etcd.InRange(s.rangeID) {
+			want[v] = true
+		}
+		if got := setOf(s.values()); !sameSet(got, want) {
+			return fmt.Sprintf("subscriber %s: after everything was delivered Values()=%v but etcd holds %s",
+				s.name, setList(got), h.symKVs(h.etcd.InRange(s.rangeID)))
+		}
+	}
+	return ""
 }
 
 func (h *pipeHarness) cleanup() {
 	for len(h.subs) > 0 {
-		h.closeSub(0)
+		if h.closeSub(0) != nil {
+			break
+		}
 	}
 	for _, p := range h.pubs {
-		p.pub.Stop()
+		p.Stop()
 	}
 	h.etcd.VerifForget()
 }
@@ -254,13 +384,10 @@ func TestVerifC13Pipeline(t *testing.T) {
 		st.Eval()
 		h := newPipeHarness()
 		defer h.cleanup()
-		inconclusive := false
-		run := func(what string, apply func() error) {
-			fmt.Fprintf(&h.log, " %s", what)
-			msg, err := h.step(apply)
+		do := func(msg string, err error) {
 			if errors.Is(err, ErrVerifWatchdog) {
-				inconclusive = true
-				st.Note("watchdog expired during %q; case abandoned (inconclusive)", what)
+				st.Class("inconclusive-watchdog")
+				st.Note("watchdog expired; case abandoned (inconclusive): %s", h.log.String())
 				t.Skip("watchdog")
 			}
 			if err != nil {
@@ -280,75 +407,55 @@ func TestVerifC13Pipeline(t *testing.T) {
 		subscribe := func(t *rapid.T) {
 			exact := rapid.IntRange(0, 4).Draw(t, "exact") == 0
 			excl := rapid.Bool().Draw(t, "exclusive")
-			nl := rapid.IntRange(0, 2).Draw(t, "listeners")
-			run(fmt.Sprintf("subscribe(exact=%v,excl=%v,listeners=%d)", exact, excl, nl), func() error {
-				return h.subscribe(exact, excl, nl)
-			})
+			do(h.opSubscribe(exact, excl, rapid.IntRange(0, 2).Draw(t, "listeners")))
 		}
 		subscribe(t)
-		reloadedAll := func(rs []string) {
-			for _, r := range rs {
-				h.reloaded(r) // a range that reloaded twice is simply reloaded twice
-			}
+		put := func(t *rapid.T) {
+			do(h.opPut(rapid.SampledFrom(h.syms).Draw(t, "k"), rapid.SampledFrom(c13Vals).Draw(t, "v")))
 		}
+		update := func(t *rapid.T) { // a registered key gets another value
+			data := h.etcd.Data()
+			var live []string
+			for _, k := range sortedKeys(data) {
+				if strings.HasPrefix(k, h.base) {
+					live = append(live, k)
+				}
+			}
+			if len(live) == 0 {
+				t.Skip("nothing registered")
+			}
+			k := rapid.SampledFrom(live).Draw(t, "k")
+			var others []string
+			for _, v := range c13Vals {
+				if v != data[k] {
+					others = append(others, v)
+				}
+			}
+			sym := h.sym(k)
+			if _, ok := h.names[sym]; !ok {
+				h.names[sym] = k // a publisher's key
+			}
+			do(h.opPut(sym, rapid.SampledFrom(others).Draw(t, "v")))
+		}
+		sync := func(t *rapid.T) { do(h.opSync(rapid.IntRange(0, 2).Draw(t, "chunk"))) }
 		t.Repeat(map[string]func(*rapid.T){
-			"put": func(t *rapid.T) {
-				k := rapid.SampledFrom(h.syms).Draw(t, "k")
-				v := rapid.SampledFrom(c13Vals).Draw(t, "v")
-				run(fmt.Sprintf("put(%s=%s)", k, v), func() error { h.etcd.Put(h.names[k], v); return nil })
-			},
-			"update": func(t *rapid.T) {
-				data := h.etcd.Data()
-				live := sortedKeys(data)
-				if len(live) == 0 {
-					t.Skip("nothing registered")
-				}
-				k := rapid.SampledFrom(live).Draw(t, "k")
-				var others []string
-				for _, v := range c13Vals {
-					if v != data[k] {
-						others = append(others, v)
-					}
-				}
-				v := rapid.SampledFrom(others).Draw(t, "v")
-				run(fmt.Sprintf("put(%s=%s)", h.sym(k), v), func() error { h.etcd.Put(k, v); return nil })
-			},
+			"put":     put,
+			"update":  update,
+			"update2": update,
 			"del": func(t *rapid.T) {
-				k := rapid.SampledFrom(h.syms).Draw(t, "k")
-				run(fmt.Sprintf("del(%s)", k), func() error { h.etcd.Delete(h.names[k]); return nil })
+				do(h.opDel(rapid.SampledFrom(h.syms).Draw(t, "k")))
 			},
-			"sync": func(t *rapid.T) {
-				chunk := rapid.IntRange(0, 2).Draw(t, "chunk")
-				run(fmt.Sprintf("sync(%d)", chunk), func() error {
-					got, err := h.etcd.Sync(chunk)
-					for _, r := range sortedRangeIDs(got) {
-						h.deliver(r, got[r])
-					}
-					return err
-				})
-			},
+			"sync":  sync,
+			"sync2": sync,
+			"sync3": sync,
 			"compact": func(t *rapid.T) {
-				all := rapid.Bool().Draw(t, "all")
-				run(fmt.Sprintf("compact(all=%v)", all), func() error {
-					rs, err := h.etcd.Compact(all)
-					reloadedAll(rs)
-					return err
-				})
+				do(h.opCompact(rapid.Bool().Draw(t, "all")))
 			},
 			"break": func(t *rapid.T) {
-				closeChan := rapid.Bool().Draw(t, "close")
-				run(fmt.Sprintf("break(close=%v)", closeChan), func() error {
-					rs, err := h.etcd.Break(closeChan)
-					reloadedAll(rs)
-					return err
-				})
+				do(h.opBreak(rapid.Bool().Draw(t, "close")))
 			},
 			"reconnect": func(t *rapid.T) {
-				run("reconnect", func() error {
-					rs, err := h.etcd.Reconnect()
-					reloadedAll(rs)
-					return err
-				})
+				do(h.opReconnect())
 			},
 			"subscribe": func(t *rapid.T) {
 				if len(h.subs) >= 4 {
@@ -360,77 +467,43 @@ func TestVerifC13Pipeline(t *testing.T) {
 				if len(h.subs) == 0 {
 					t.Skip("no subscriber")
 				}
-				i := rapid.IntRange(0, len(h.subs)-1).Draw(t, "i")
-				run("close("+h.subs[i].name+")", func() error { h.closeSub(i); return nil })
+				do(h.opClose(rapid.IntRange(0, len(h.subs)-1).Draw(t, "i")))
 			},
 			"listen": func(t *rapid.T) {
 				if len(h.subs) == 0 {
 					t.Skip("no subscriber")
 				}
-				s := h.subs[rapid.IntRange(0, len(h.subs)-1).Draw(t, "i")]
-				if len(s.listeners) >= 3 {
+				i := rapid.IntRange(0, len(h.subs)-1).Draw(t, "i")
+				if len(h.subs[i].listeners) >= 3 {
 					t.Skip("enough listeners")
 				}
-				run("listen("+s.name+")", func() error { s.sub.AddListener(s.newListener()); return nil })
+				do(h.opListen(i))
 			},
 			"publish": func(t *rapid.T) {
 				if len(h.pubs) >= 3 {
 					t.Skip("enough publishers")
 				}
-				id := int64(rapid.IntRange(0, 2).Draw(t, "id")) // 0: key named after the lease
-				v := rapid.SampledFrom(c13Vals).Draw(t, "v")
-				run(fmt.Sprintf("publish(id=%d,%s)", id, v), func() error {
-					var opts []PubOption
-					if id > 0 {
-						opts = append(opts, WithId(id))
-					}
-					_, putsBefore, _ := h.etcd.Counters()
-					p := NewPublisher(h.etcd.Endpoints(), h.base, v, opts...)
-					if err := p.KeepAlive(); err != nil {
-						return fmt.Errorf("KeepAlive: %w", err)
-					}
-					if _, puts, _ := h.etcd.Counters(); puts != putsBefore+1 {
-						return fmt.Errorf("KeepAlive returned but etcd saw %d puts", puts-putsBefore)
-					}
-					h.pubs = append(h.pubs, &pipePub{pub: p})
-					return nil
-				})
+				id := int64(rapid.IntRange(0, 2).Draw(t, "id"))
+				do(h.opPublish(id, rapid.SampledFrom(c13Vals).Draw(t, "v")))
 			},
 			"unpublish": func(t *rapid.T) {
 				if len(h.pubs) == 0 {
 					t.Skip("no publisher")
 				}
-				i := rapid.IntRange(0, len(h.pubs)-1).Draw(t, "i")
-				run(fmt.Sprintf("unpublish(%d)", i), func() error {
-					h.pubs[i].pub.Stop()
-					h.pubs = append(h.pubs[:i], h.pubs[i+1:]...)
-					h.revoked++
-					return h.etcd.WaitRevokes(h.revoked)
-				})
+				do(h.opUnpublish(rapid.IntRange(0, len(h.pubs)-1).Draw(t, "i")))
 			},
 		})
 		// final convergence: deliver whatever is pending and compare with etcd itself
-		run("sync(0)", func() error {
-			got, err := h.etcd.Sync(0)
-			for _, r := range sortedRangeIDs(got) {
-				h.deliver(r, got[r])
-			}
-			return err
-		})
-		for _, s := range h.subs {
-			if !s.m.excl {
-				want := map[string]bool{}
-				for _, v := range h.etcd.InRange(s.rangeID) {
-					want[v] = true
-				}
-				if got := setOf(s.values()); !sameSet(got, want) {
-					t.Fatalf("subscriber %s: after everything was delivered Values()=%v but etcd holds %s\nhistory: %s",
-						s.name, setList(got), h.symKVs(h.etcd.InRange(s.rangeID)), h.log.String())
-				}
-			}
+		do(h.opSync(0))
+		if msg := h.converged(); msg != "" {
+			t.Fatalf("%s\nhistory: %s", msg, h.log.String())
 		}
-		if inconclusive {
-			return
+		undetermined := 0
+		for _, s := range h.subs {
+			undetermined += s.undetermined
+		}
+		if undetermined > 0 {
+			st.Class("exclusive-undetermined-after-reload")
 		}
 		if h.reloads > 0 {
 			st.Class("with-reload")
@@ -458,4 +531,63 @@ func sortedRangeIDs(m map[string][]VerifEvent) []string {
 	}
 	sort.Strings(out)
 	return out
+}
+
+// ------------------------------------------------------------------ regressions (D4, whole pipeline)
+
+type c13Step func(h *pipeHarness) (string, error)
+
+func runPipelineScript(t *testing.T, steps ...c13Step) {
+	t.Helper()
+	logx.Disable()
+	h := newPipeHarness()
+	defer h.cleanup()
+	for _, s := range steps {
+		msg, err := s(h)
+		if errors.Is(err, ErrVerifWatchdog) {
+			t.Skipf("watchdog expired (inconclusive): %s", h.log.String())
+		}
+		if err != nil {
+			t.Fatalf("harness: %v\nhistory: %s", err, h.log.String())
+		}
+		if msg != "" {
+			t.Fatalf("%s\nhistory: %s", msg, h.log.String())
+		}
+	}
+	if msg := h.converged(); msg != "" {
+		t.Fatalf("%s\nhistory: %s", msg, h.log.String())
+	}
+}
+
+// A service instance re-registers under its fixed id with a new address (Publisher
+// WithId): the watch delivers a PUT on a live key.  The old address must leave Values().
+func TestVerifC13RegressD4PipelineRepublish(t *testing.T) {
+	runPipelineScript(t,
+		func(h *pipeHarness) (string, error) { return h.opSubscribe(false, false, 1) },
+		func(h *pipeHarness) (string, error) { return h.opPublish(1, "v0") },
+		func(h *pipeHarness) (string, error) { return h.opSync(0) },
+		func(h *pipeHarness) (string, error) { return h.opPublish(1, "v1") },
+		func(h *pipeHarness) (string, error) { return h.opSync(0) },
+	)
+}
+
+// The value of a key changes while the watch is behind a compaction: the reload diff
+// announces the new pair first and the old pair as removed afterwards.
+func TestVerifC13RegressD4PipelineReloadChangesValue(t *testing.T) {
+	runPipelineScript(t,
+		func(h *pipeHarness) (string, error) { return h.opPut("B/k0", "v0") },
+		func(h *pipeHarness) (string, error) { return h.opSubscribe(false, false, 1) },
+		func(h *pipeHarness) (string, error) { return h.opPut("B/k0", "v1") },
+		func(h *pipeHarness) (string, error) { return h.opCompact(false) },
+	)
+}
+
+// Same through the reload that follows a reconnect.
+func TestVerifC13RegressD4PipelineReconnectChangesValue(t *testing.T) {
+	runPipelineScript(t,
+		func(h *pipeHarness) (string, error) { return h.opPut("B/k0", "v0") },
+		func(h *pipeHarness) (string, error) { return h.opSubscribe(false, true, 0) },
+		func(h *pipeHarness) (string, error) { return h.opPut("B/k0", "v1") },
+		func(h *pipeHarness) (string, error) { return h.opReconnect() },
+	)
 }
